@@ -904,3 +904,4 @@ def sterile(chk, repo):
 
 # added rules (appended to the explanation the evidence file carries)
 EXPLANATION += (" " + 'Added during the build (DESIGN.md 4.31, second table): sterile() by abstract execution on packets built through append / append_writer (two ethertypes, a writer that does not fit); who-may-append rule: write commands enter sync-group packets through append_writer only; frames with equal datagrams.')
+EXPLANATION += (' Added after wave 10: assemble() after sterile() still gives the live frame; R18.6 (allocation decoded independently) is shared.')
